@@ -20,7 +20,7 @@ BINARY = ["add", "subtract", "multiply", "divide", "equal", "less", "greater_equ
           "logical_xor", "bitwise_and", "remainder", "pow", "atan2"]
 REDUCE = ["sum", "prod", "min", "max", "all", "any"]
 OTHER = ["where", "where_scalar_cond", "fill_null", "astype", "isin", "getitem", "reshape", "roll", "flip", "take", "concat",
-         "expand_dims", "broadcast_to", "clip", "copy"]
+         "expand_dims", "broadcast_to", "clip", "clip_bounds", "copy"]
 LEAK_SUSPECTS = ["sort", "argsort", "cumulative_sum", "matmul", "mean", "std", "var", "argmax", "unique_values"]
 
 
@@ -242,6 +242,27 @@ def worker(job):
             lo, hi = (-1, 2) if dtype not in ("uint8", "uint16", "uint32", "uint64") else (1, 3)
             call = lambda a: ndx.clip(a, min=lo, max=hi)
             oracle = (np.ma.getmaskarray(x[0]), np.clip(np.ma.getdata(x[0]), lo, hi))
+        elif op == "clip_bounds":
+            # bounds that are arrays themselves: 0-d or broadcastable, nullable or not; a null bound nulls the element
+            x = make_input(rng, prng, dtype, shape)
+            bsh = [(), ()] if prng.random() < 0.6 else [bshape(), bshape()]
+            ln, hn = prng.random() < 0.7, prng.random() < 0.5
+            lo = make_input(rng, prng, dtype, bsh[0], nullable=ln, all_null=ln and prng.random() < 0.3)
+            hi = make_input(rng, prng, dtype, bsh[1], nullable=hn)
+            # keep lo <= hi on the data so that the clip is well defined
+            hi = [np.ma.masked_array((np.ma.getdata(h) + 6).astype(dtype), mask=np.ma.getmaskarray(h)) if hn else (h + 6).astype(dtype) for h in hi]
+            inputs, dts = [x, lo, hi], [ndt, ("n" if ln else "") + dtype, ("n" if hn else "") + dtype]
+            call = lambda a, l, h: ndx.clip(a, min=l, max=h)
+            def safe(v, isnull, fill):
+                d = np.ma.getdata(v)
+                return np.where(np.ma.getmaskarray(v), np.asarray(fill).astype(d.dtype), d) if isnull else d
+            ms = [np.ma.getmaskarray(x[0]), np.ma.getmaskarray(lo[0]) if ln else np.zeros(np.shape(lo[0]), bool),
+                  np.ma.getmaskarray(hi[0]) if hn else np.zeros(np.shape(hi[0]), bool)]
+            try:
+                bm = np.broadcast_arrays(*ms)
+                oracle = (bm[0] | bm[1] | bm[2], np.clip(safe(x[0], True, 1), safe(lo[0], ln, 0), safe(hi[0], hn, 7)))
+            except ValueError:
+                rec["skip"] = "shapes do not broadcast"; return rec
         else:
             rec["skip"] = "unknown op"; return rec
     results = []
@@ -325,7 +346,7 @@ def worker(job):
 def domain_ok(op, dtype):
     num = dtype in impl.INTS + impl.FLOATS
     if op in ("abs", "negative", "sign", "square", "add", "subtract", "multiply", "less", "greater_equal", "remainder", "pow",
-              "sum", "prod", "min", "max", "clip", "sort", "argsort", "cumulative_sum", "matmul", "mean", "argmax", "unique_values"):
+              "sum", "prod", "min", "max", "clip", "clip_bounds", "sort", "argsort", "cumulative_sum", "matmul", "mean", "argmax", "unique_values"):
         return num
     if op in ("floor", "sqrt", "exp", "isnan", "isfinite", "log1p", "divide", "atan2", "std", "var"):
         return dtype in impl.FLOATS
